@@ -439,6 +439,44 @@ func (f *fnTrans) applyCall(ins ssa.Instruction, name string, ct *Contract, sig 
 			f.noteAssumed("trusted contract: " + strings.TrimSuffix(cs.name, "[leaf]"))
 		}
 	}
+	// Type invariants hold of every finished object at every call boundary: after the callee
+	// returns they hold again of the objects this function received and of the objects it
+	// handed to the callee complete (the callee owes them; see the typeinv obligations).
+	if len(mods) > 0 {
+		seen := map[string]bool{}
+		again := func(t Term, typ types.Type) {
+			if _, ok := typ.Underlying().(*types.Pointer); !ok || seen[t.S] {
+				return
+			}
+			seen[t.S] = true
+			if inv := f.typeInv(t, typ); inv.S != "true" {
+				f.factHere(inv)
+			}
+		}
+		for _, p := range f.fn.Params {
+			if !f.isConstructing(p) {
+				again(f.vals[p], p.Type())
+			}
+		}
+		if fnVal := f.w.Fns[name]; fnVal != nil && !isInvoke && closureBind == nil {
+			for k, p := range fnVal.Params {
+				if k >= len(args) {
+					break
+				}
+				constructing := false
+				if ct != nil {
+					for _, n := range ct.Constructs {
+						if n == p.Name() {
+							constructing = true
+						}
+					}
+				}
+				if !constructing {
+					again(args[k], p.Type())
+				}
+			}
+		}
+	}
 	return rts
 }
 
